@@ -18,17 +18,18 @@ type TV struct {
 }
 
 type SpecEnv struct {
-	vc      *VC
-	st      *State
-	old     *State
-	pre     *State // start of the current loop iteration (loop step clauses only)
-	vars    map[string]TV
-	scope   *types.Scope // innermost Go scope for identifier lookup (may be nil)
-	pos     token.Pos
-	pkg     *packages.Package
-	objVals map[types.Object]*Term
-	depth   int
-	what    string
+	vc       *VC
+	st       *State
+	old      *State
+	pre      *State // start of the current loop iteration (loop step clauses only)
+	loopPath string // ordinal path of the loop whose clauses are being evaluated
+	vars     map[string]TV
+	scope    *types.Scope // innermost Go scope for identifier lookup (may be nil)
+	pos      token.Pos
+	pkg      *packages.Package
+	objVals  map[types.Object]*Term
+	depth    int
+	what     string
 }
 
 type specFail string
@@ -501,13 +502,21 @@ func (env *SpecEnv) evalCall(e *SExpr) TV {
 		if tv, ok := env.streamBuiltin(name, e); ok {
 			return tv
 		}
-		if name == "ncalls" || name == "callarg" || name == "callret" {
+		if name == "ncalls" || name == "callarg" || name == "callret" || name == "callrecv" {
 			if len(e.Args) == 0 || e.Args[0].K != "str" {
 				env.fail(e, name+": first argument must be a string literal (callee expression text)")
 			}
 			k := "$call." + e.Args[0].Name
 			if name == "ncalls" {
 				return TV{ghostInt(env.st, k+".n"), types.Typ[types.Int]}
+			}
+			if name == "callrecv" {
+				// receiver of the last call (recorded for calls of contracted methods)
+				t, has := env.st.ghost[k+".recv"]
+				if !has {
+					env.fail(e, "no receiver of "+e.Args[0].Name+" recorded on any path to this point (callrecv needs a contracted method)")
+				}
+				return TV{t, vc.ghostTypes[k+".recv"]}
 			}
 			idx, ok := intConst(env.eval(e.Args[1]).T)
 			if !ok {
@@ -537,6 +546,14 @@ func (env *SpecEnv) evalCall(e *SExpr) TV {
 			for k, t := range env.pre.ghost {
 				n.vars[k] = TV{t, env.vc.ghostTypes[k]}
 			}
+			// role aliases ($i, $xs ...) of the loop denote the values at the start of the iteration too
+			if env.loopPath != "" {
+				for _, role := range []string{"$i", "$k", "$v", "$visited", "$xs"} {
+					if t, ok := env.pre.ghost[role+"@"+env.loopPath]; ok {
+						n.vars[role] = TV{t, env.vc.ghostTypes[role+"@"+env.loopPath]}
+					}
+				}
+			}
 			return n.eval(e.Args[0])
 		}
 		switch name {
@@ -552,6 +569,10 @@ func (env *SpecEnv) evalCall(e *SExpr) TV {
 			case x.T.Sort == SStr:
 				return TV{strLen(x.T), types.Typ[types.Int]}
 			case isSliceSort(x.T.Sort):
+				// every Go slice value has 0 <= len: a contract may rely on it for a slice the code has not loaded yet
+				if env.st != nil && !env.st.dead && !hasVarTerm(x.T) {
+					env.st.assume(Ge(sliceLen(x.T), IntLit(0)))
+				}
 				return TV{sliceLen(x.T), types.Typ[types.Int]}
 			}
 			if x.Ty != nil {
@@ -904,4 +925,20 @@ func sprintfTerm(format string, args []*Term) *Term {
 func is64(t types.Type) bool {
 	b, _, ok := intBits(t)
 	return ok && b == 64
+}
+
+// hasVarTerm: the term mentions a bound variable (quantifier or pure-function parameter).
+func hasVarTerm(t *Term) bool {
+	if t == nil {
+		return false
+	}
+	if t.Op == "var" {
+		return true
+	}
+	for _, a := range t.Args {
+		if hasVarTerm(a) {
+			return true
+		}
+	}
+	return false
 }
